@@ -71,7 +71,7 @@ def parseReq (m : List (String × String)) : Option (ReqIn × Nat) := do
     compress := ← compress? (← get m "compress"), expect100 := ← bool? (← get m "expect"),
     userCL := ucl, userTEchunked := ← bool? (← get m "ute"), userCE := ← bool? (← get m "uce"),
     userConn := ← optBool (← get m "uconn"), userExpect := ← bool? (← get m "uexpect"),
-    connForceClose := ← bool? (← get m "cfc") }
+    connForceClose := ← bool? (← get m "cfc"), limited := ← bool? (← get m "limited") }
   pure (x, ← (← get m "actual").toNat?)
 
 def handle : List String → String
